@@ -360,9 +360,9 @@ func stressOne(rng *rand.Rand, rootDir string) (evs []map[string]any, shape stri
 					}
 				}
 			}
-			if len(blocked) > 0 && overloaded() {
-				return nil, "", "overload"
-			}
+			// No overload exemption here: every producer has returned (all broadcasts are done) and the
+			// fetcher is parked on the condition variable, so nothing can wake it any more -- the
+			// verdict does not depend on timing.  (A run that does not settle at all is exit 2 above.)
 		}
 	}
 	names := []string{}
@@ -503,6 +503,7 @@ func watcherReplay(args []string) {
 			onPath := true
 			pi := 0 // position in path
 			mismatch := ""
+			stateDrift := ""
 			var lastCmd schedItem
 			o, ok := st.observe()
 			for {
@@ -511,10 +512,16 @@ func watcherReplay(args []string) {
 					break
 				}
 				k := obsKey(o, true)
+				cn = nil
 				if o.Changed != nil {
 					cn = on.byObs[k]
-				} else {
-					cn = on.byObs2[obsKey(o, false)]
+				}
+				if cn == nil {
+					// p.changed is internal state the property does not pin: fall back to what Fetch
+					// returned and who is blocked, and report the difference as drift
+					if cn = on.byObs2[obsKey(o, false)]; cn != nil && o.Changed != nil && stateDrift == "" {
+						stateDrift = fmt.Sprintf("after [%s] p.changed differs from the model: real %q", renderCmds(done), k)
+					}
 				}
 				if cn == nil {
 					mismatch = "obs"
@@ -545,6 +552,11 @@ func watcherReplay(args []string) {
 				}
 			}
 			cmdText := renderCmds(done)
+			if mismatch == "" && stateDrift != "" {
+				st.finish(true)
+				hlib.Emit(hlib.Result{Idx: cn.leafIdx, V: "drift", Sig: "replay:state-p.changed", Detail: stateDrift, NT: cmdText})
+				continue
+			}
 			if mismatch == "" {
 				evs := st.finish(true)
 				covered[cn.leafIdx] = true
